@@ -52,7 +52,7 @@ MAX_DATETIME = datetime(year=3000, month=1, day=1)
 
 
 def str_to_dtype(str_dtype):
-    if str_dtype in ['bool', 'int8', 'int16', 'int32', 'uint8', 'uint16', 'uint32', 'uint64', 'float32', 'float64']:
+    if str_dtype in ['bool', 'int8', 'int16', 'int32', 'int64', 'uint8', 'uint16', 'uint32', 'uint64', 'float32', 'float64']:
         return np.dtype(str_dtype)
     else:
         raise ValueError("Unsupported dtype '{}'".format(str_dtype))
